@@ -51,7 +51,8 @@ def _step(c, m, srv, name, key, nr, expire, delta, casmode, seen, step):
     kw = {} if nr is None else {"noreply": nr}
     noreply = _eff(name, nr)
     other = KEYS[1 - KEYS.index(key)]
-    val = ("v%d" % step).encode()
+    # the first step stores the zero-length value: a hit whose value is falsy must not read as a miss (seed C05-m7)
+    val = b"" if step == 0 else ("v%d" % step).encode()
     exp_exc = None
     try:
         if name in ("set", "add", "replace"):
